@@ -621,10 +621,10 @@ class Key:
             )
         elif sexp[1][0] == b"rsa-pkcs1":
             assert len(kd) == 8, len(kd)
-            if kd[b"p"] > kd[b"q"]:  # Make p smaller than q
-                kd[b"p"], kd[b"q"] = kd[b"q"], kd[b"p"]
+            # The LSH form stores the primes the other way around, see
+            # _toString_LSH.
             return cls._fromRSAComponents(
-                n=kd[b"n"], e=kd[b"e"], d=kd[b"d"], p=kd[b"p"], q=kd[b"q"]
+                n=kd[b"n"], e=kd[b"e"], d=kd[b"d"], p=kd[b"q"], q=kd[b"p"]
             )
 
         else:
